@@ -32,7 +32,9 @@ def addrtab_programs(rng, tier):
             for last in (True, False):
                 body = ["newlabel"]
                 if not last:
-                    body.append("newsection 8 2147483647")     # a user section that sorts after .addrtab
+                    # the first patchable call creates .addrtab (id 1, order INT_MAX); a user section of the same order
+                    # created afterwards (id 2) sorts after it, so the table is not the last section
+                    body += ["jmpabs call d %x" % far[1], "newsection 8 2147483647"]
                 for t in rng.sample(far, 3) + rng.sample(near, 2):
                     body.append("jmpabs %s d %x" % (rng.choice(("jmp", "call")), t))
                     if rng.random() < 0.4:
@@ -40,7 +42,7 @@ def addrtab_programs(rng, tier):
                 body.append("jmpabs call d %x" % far[0])        # repeated target: same slot
                 body += ["bind 0", "elabel 0 8", "jmp jmp d 0"]
                 if not last:
-                    body += ["section 1", "embed 9090", "elabel 0 8"]
+                    body += ["section 2", "embed 9090", "elabel 0 8"]
                 progs.append(["init x64 %s" % ("-" if ib is None else "%x" % ib)] + body + c03.tail(base))
     # 32-bit wrap-around, jcc / jecxz through relocations, AArch64 branches to absolute targets
     for base in (0x1000, 0x7FFFF000, 0x80000000, 0xFFFFF000):
